@@ -356,6 +356,14 @@ nextFileMatch:
 	}
 
 	for _, md := range d.repoMetaData {
+		// Only publish names and URL templates of repositories this search is
+		// allowed to see: not tombstoned, and owned by the caller's tenant.
+		if md.Tombstone {
+			continue
+		}
+		if !tenant.HasAccess(ctx, md.TenantID) {
+			continue
+		}
 		r := md
 		addRepo(&res, &r)
 		for _, v := range r.SubRepoMap {
